@@ -3,6 +3,7 @@ package pogreb
 import (
 	"io"
 	"os"
+	"path/filepath"
 
 	"github.com/akrylysov/pogreb/fs"
 )
@@ -40,6 +41,25 @@ func (db *DB) Backup(path string) error {
 
 	srcFS := db.opts.FileSystem
 	dstFS := fs.Sub(db.opts.rootFS, path)
+
+	// Remove segment files left in the destination by an earlier backup. Opening the backup replays every
+	// segment it finds, a stale one could bring back items that have been deleted and compacted away since.
+	copied := make(map[string]bool, len(segments))
+	for _, seg := range segments {
+		copied[seg.name] = true
+	}
+	entries, err := dstFS.ReadDir(".")
+	if err != nil {
+		return err
+	}
+	for _, entry := range entries {
+		name := entry.Name()
+		if filepath.Ext(name) == segmentExt && !copied[name] {
+			if err := dstFS.Remove(name); err != nil {
+				return err
+			}
+		}
+	}
 
 	for _, seg := range segments {
 		// Use the file name the segment was opened with: segments written by older versions have no sequence ID in their name.
